@@ -130,7 +130,14 @@ def check(repo: Repo, rep: Report) -> None:
            "fractional timeline the rounded difference falls short (0.3 - 0.1 < 0.2) and the element due exactly one window later is dropped")
     rep.ob("R3-throttle-first", tf, "last emission time recorded in the deciding branch", bool(rec) and bool(dec) and rec[0].ctx.branch == dec[0].ctx.branch,
            "the time of the last emission is not recorded together with the decision to emit")
-    # sample
+    # sample(period, scheduler): the sampler is interval(period) on the scheduler the operator was given
+    sm_ = repo.fn(SM, "sample_")
+    ivs = [n_ for n_ in sm_.all_nodes() if isinstance(n_, ast.Call) and call_name(n_) in ("interval", "timer")]
+    okv = bool(ivs) and all(any(k_.arg == "scheduler" and isinstance(k_.value, ast.Name) and k_.value.id in sm_.params for k_ in n_.keywords) or
+                             (len(n_.args) >= 2 and isinstance(n_.args[-1], ast.Name) and n_.args[-1].id in sm_.params and "sched" in n_.args[-1].id) for n_ in ivs)
+    rep.ob("R4-sample-once", sm_, f"sample(period, scheduler): `{short(ivs[0], 50) if ivs else '?'}` ticks on the given scheduler", okv,
+           "sample(period, scheduler) builds its sampler without the scheduler it was given: the ticks come from the default (real-time) "
+           "scheduler, not from the timeline the caller pinned the operator to")
     ss = repo.fn(SM, "sample_observable.subscribe.sample_subscribe")
     sroot = repo.fn(SM, "sample_observable.subscribe")
     src_next = sroot.child("on_next")
